@@ -145,6 +145,8 @@ def build_corpus(tier, rng):
         tw.groups = None
         twins.append(tw)
     reals = G.real_structure(ID, [it for _, it in cands] + twins)
+    # the model's description of the same code: where the two differ, a search for a distinguishing input follows (S.mismatch_search)
+    mstructs = [r[0] for r in G.model_query(ID, [it for _, it in cands] + twins, [("struct", ["EnumString"])])] if any(reals) else [None] * (2 * len(cands))
     rejected = 0
     for ci, ((fam, it), info) in enumerate(zip(cands, infos)):
         if fam == "overlap":
@@ -175,6 +177,12 @@ def build_corpus(tier, rng):
                     seen.add(s_)
                     c.add_q(k, "fromstr", [S.hx(s_)], note="near-real-literal")
                     c.add_q(k2, "fromstr", [S.hx(s_)], note="near-real-literal")
+        for j_ in (ci, len(cands) + ci):
+            for s_ in S.mismatch_search(reals[j_], mstructs[j_]):
+                if s_ not in seen:
+                    seen.add(s_)
+                    c.add_q(k, "fromstr", [S.hx(s_)], note="search-after-structural-mismatch")
+                    c.add_q(k2, "fromstr", [S.hx(s_)], note="search-after-structural-mismatch")
         c.add_q(k, "struct", ["EnumString"], note="structure")
         c.add_q(k2, "struct", ["EnumString"], note="structure")
     c.rejected = rejected
